@@ -76,6 +76,7 @@ def pipelines(m, dump):
     out, cur = {}, []
     i = 0
     graphs = []
+    dump = [r for r in dump if r.get("ev") in ("input", "checked", "order")]   # the per-pass records are C01's
     while i < len(dump):
         if dump[i].get("ev") == "input" and i + 2 < len(dump) + 0 and dump[i + 1].get("ev") == "checked" and dump[i + 2].get("ev") == "order":
             graphs.append(ordered_graph(m, dump[i + 1], dump[i + 2]))
